@@ -408,6 +408,35 @@ struct L11 : Listener {
                     }
                 }
             }
+            // (d) one Parameter object set several times with changing type: its own type is the type of the LAST set; exactly the accessor of
+            //     that type returns the values, every other one throws invalid_argument
+            {
+                ezc3d::ParametersNS::GroupNS::Parameter P("REUSED");
+                const size_t steps = 2 + rg.below(4); int lastType = -1; size_t lastCount = 0; long long lastFirst = 0;
+                for (size_t st = 0; st < steps; ++st) {
+                    const int ty = static_cast<int>(rg.below(3)); const bool scalar = rg.below(2) == 0; const size_t n = scalar ? 1 : 1 + rg.below(3);
+                    const long long v0 = static_cast<long long>(rg.below(200)) - 100;
+                    if (ty == 0) { if (scalar) P.set(static_cast<int>(v0)); else { std::vector<int> v(n, static_cast<int>(v0)); P.set(v); } }
+                    else if (ty == 1) { if (scalar) P.set(static_cast<float>(v0) + 0.5f); else { std::vector<float> v(n, static_cast<float>(v0) + 0.5f); P.set(v); } }
+                    else { if (scalar) P.set(std::string("s") + std::to_string(v0)); else { std::vector<std::string> v(n, std::string("s") + std::to_string(v0)); P.set(v); } }
+                    lastType = ty; lastCount = n; lastFirst = v0;
+                }
+                const auto &CP = P;
+                Probe pi = probe([&](Probe &Q) { const auto &v = CP.valuesAsInt(); Q.desc = std::to_string(v.size()) + ":" + (v.empty() ? std::string() : std::to_string(v[0])); });
+                Probe pf = probe([&](Probe &Q) { const auto &v = CP.valuesAsFloat(); Q.desc = std::to_string(v.size()) + ":" + (v.empty() ? std::string() : std::to_string(static_cast<long long>(v[0] * 2))); });
+                Probe ps = probe([&](Probe &Q) { const auto &v = CP.valuesAsString(); Q.desc = std::to_string(v.size()) + ":" + (v.empty() ? std::string() : v[0]); });
+                Probe pb = probe([&](Probe &Q) { const auto &v = CP.valuesAsByte(); Q.desc = std::to_string(v.size()); });
+                const std::string wantI = std::to_string(lastCount) + ":" + std::to_string(lastFirst), wantF = std::to_string(lastCount) + ":" + std::to_string(lastFirst * 2 + 1), wantS = std::to_string(lastCount) + ":s" + std::to_string(lastFirst);
+                const Probe *own = lastType == 0 ? &pi : (lastType == 1 ? &pf : &ps); const std::string &want = lastType == 0 ? wantI : (lastType == 1 ? wantF : wantS);
+                static const char *tn[] = {"int", "float", "string"};
+                if (own->threw || own->desc != want) { fail(i, std::string("a Parameter last set with ") + tn[lastType] + " values (after " + std::to_string(steps - 1) + " earlier sets of other types) answers " + (own->threw ? own->cls : own->desc) + " to the accessor of its own type instead of " + want); return; }
+                const Probe *others[] = {&pi, &pf, &ps, &pb};
+                for (int k2 = 0; k2 < 4; ++k2) {
+                    if (others[k2] == own) continue;
+                    ++negative;
+                    if (!others[k2]->threw || others[k2]->cls != "invalid_argument") { fail(i, std::string("a Parameter last set with ") + tn[lastType] + " values lets accessor no. " + std::to_string(k2) + " (0 int, 1 float, 2 string, 3 byte) of another type return " + (others[k2]->threw ? others[k2]->cls : others[k2]->desc) + " instead of throwing invalid_argument"); return; }
+                }
+            }
             break; }
         }
         if (!tag.empty()) r.tags.insert(tag);
